@@ -266,14 +266,14 @@ def run(tier, seed, work):
     r = vp.rng(seed, "c03")
     if tier == "quick":
         pool = covering_pool(r, 60)
-        pairs = [(i, pool[r.randrange(len(pool))], pool[r.randrange(len(pool))]) for i in range(3000)]
+        pairs = [(i, pool[r.randrange(len(pool))], pool[r.randrange(len(pool))]) for i in range(8000)]
         # make sure every pool element is used once as old and once as new
-        pairs += [(3000 + i, pool[i], pool[(i * 7 + 3) % len(pool)]) for i in range(len(pool))]
-        nread = 1000
+        pairs += [(8000 + i, pool[i], pool[(i * 7 + 3) % len(pool)]) for i in range(len(pool))]
+        nread = 3000
     else:
         pool = covering_pool(r, 200)
         pairs = [(i * len(pool) + j, pool[i], pool[j]) for i in range(len(pool)) for j in range(len(pool))]
-        nread = 10000
+        nread = 30000
     # derived pairs: the new env is the old one with whole scopes dropped (everything else byte-identical), and vice versa -
     # the situations in which a writer could believe "nothing changed here"
     base = len(pairs) + 100000
@@ -291,7 +291,7 @@ def run(tier, seed, work):
             derived.append((base + len(derived), noproc, e))
         derived.append((base + len(derived), e, e))
     if tier == "quick":
-        derived = derived[:1500]
+        derived = derived[:3000]
     pairs += derived
     shards = [("pair", s, seed, work) for s in vp.split(pairs, vp.NCPU * 2)]
     shards += [("read", s, seed, work) for s in vp.split(range(nread), vp.NCPU)]
